@@ -11,9 +11,10 @@ SHARD = 2
 HAS_MODEL_OUT = True
 RULE = ("generated data files (zones with Z/./& apexes, delegated and authoritative child zones, all record "
         "types, default and explicit TTLs, wildcards at several depths, located records and a resolver map, "
-        "byte-prefix sibling names, 1- and 63-byte labels, names >= 128 bytes, root zone, root delegation, empty "
-        "file, shapes outside the well-formed guard) compiled by the real compilers to CDB / RocksDB v1 / RocksDB v2; "
-        "30-40 queries per file (declared names, children, parents, wildcard-covered, non-wild-safe labels, outside, "
+        "byte-prefix sibling names, 1- and 63-byte labels, long names (keys of 96..191 and of >= 192 bytes), labels "
+        "with bytes above 0x7f, NS/MX targets in upper case and with bytes above 0x7f, root zone, root delegation, "
+        "empty file, shapes outside the well-formed guard) compiled by the real compilers to CDB / RocksDB v1 / RocksDB v2; "
+        "24-40 queries per file (declared names, names at and below NS owners, the longest names, children, parents, wildcard-covered, non-wild-safe labels, outside, "
         "root; all types + ANY/DS/unknown; mixed case; four clients) through the three real handlers; "
         "non-trivial = distinct (file class, query name, type, client location, response class) other than REFUSED")
 TRUSTED_BASE = [
